@@ -898,3 +898,128 @@ def c09(r):
         e["calls"][-1][1] = "x"
         return True
     r.negctl("Trace_Cache", ch_h[0], {"C09Hist": [(hdig, "C09.result.independent-of-history")]})
+
+
+# --------------------------------------------------------------- C10 / C12
+@plan("C10", "exploration")
+def c10(r):
+    thorough = r.tier == "thorough"
+    r.rule = ("TLC model-checks MC_BaZi (SameSlot is an equivalence over the hour marks of a 3-day window with 37 / 39 classes for the two "
+              "day-boundary conventions; both halves of the rat slot share day and hour pillar under the early-rat convention). Lookups: "
+              "for base years {1900 (default), 1800, 1984, 2000} and %s, ~170 moments per year: each Jie instant, +-1 s, +-1 min, the start, "
+              "middle and end of its two-hour slot and of the neighbouring slots, 23:00 / 23:59:59 / 00:00 / 00:59:59 around seeded midnights, "
+              "random moments; both conventions; the three entry points. TLC checks soundness (every result has the query pillars and is not "
+              "before the base year), strict order, completeness (a result in the query's slot). Distinct non-trivial case = distinct (moment, convention, base)." %
+              ("every year from the base to the present" if thorough else "25 seeded years per base + the first/last two"))
+    r.assumptions += ["the forward pillars of queries and results are the library's own (their correctness is C05)",
+                      "the end of the domain is the wall-clock year, read by the library; the driver logs it and the specification takes it as a parameter"]
+    r.build()
+    r.mc("MC_BaZi", "MC_BaZi")
+    ch = r.drive("c10lookups", args={"years": 25, "rand": 8}, maxlines=6)
+    r.validate("Trace_BaZi", ch)
+    r.sample_from(ch[:1])
+    r.cov["samples"] = [s[:500] for s in r.cov["samples"]]
+    n = 0
+    for c in ch:
+        for line in open(c, encoding="utf-8"):
+            n += len(json.loads(line).get("rows", []))
+    r.cov["lookups"] = n
+    r.cov["distinct_nontrivial"] = n
+    def first(e, pred):
+        for row in e.get("rows", []):
+            if row["p"] == 0 and pred(row):
+                return row
+        return None
+    def unsound(e):
+        row = first(e, lambda x: len(x["r"]) > 0)
+        if not row: return False
+        row["r"][0]["pz"][1] = "甲子" if row["r"][0]["pz"][1] != "甲子" else "乙丑"
+        return True
+    def unsorted(e):
+        row = first(e, lambda x: len(x["r"]) > 1)
+        if not row: return False
+        row["r"][0], row["r"][1] = row["r"][1], row["r"][0]
+        return True
+    def incomplete(e):
+        row = first(e, lambda x: len(x["r"]) > 0 and x["q"][3] in (10, 11, 12) and any(y["at"][:3] == x["q"][:3] for y in x["r"]))
+        if not row: return False
+        row["r"] = [x for x in row["r"] if x["at"][:3] != row["q"][:3]]
+        return True
+    def early(e):
+        row = first(e, lambda x: len(x["r"]) > 0)
+        if not row: return False
+        row["b"] = row["r"][0]["at"][0] + 1
+        return True
+    r.negctl("Trace_BaZi", ch[:8], {"C10Year": [(unsound, "C10.sound.pillars"), (unsorted, "C10.sorted"), (incomplete, "C10.complete"), (early, "C10.sound.base-year")]}, per_kind=1)
+
+
+@plan("C12", "exploration")
+def c12(r):
+    thorough = r.tier == "thorough"
+    r.rule = ("TLC model-checks MC_Fortune (school-2 offsets over every minute distance 0..46080 stay in range and convert back exactly; "
+              "school-1 offsets over all pairs of instants up to 32 days apart on a half-hour grid stay in range and differ from school 2 by at "
+              "most one slot's worth). Births (%s): Jie instants +-1 s / +-1 min / +-1 h and their day ends in 12 boundary years (1, 2, 100, "
+              "1582, 1583, 1900, 1984, 2000, 2012, 2020, 2024, 9990), 29 Feb, the 1582 switch, year ends, and seeded moments (a quarter of them "
+              "on the 23:00 / midnight / 01:00 edges); 2 genders x 2 schools each: direction, start offset, start date (through Civil.tla stepping), "
+              "10 great fortunes with ages/years/pillars, every annual and minor fortune, monthly fortunes of two years. "
+              "Distinct non-trivial case = distinct (birth, gender, school) chart." % ("40 000 births" if thorough else "1 000 births"))
+    r.assumptions += ["school-1 start offsets are not judged when the birth or the Jie lies in 23:00-23:59 (the statement does not say which two-hour slot that hour counts as)",
+                      "month / hour / year pillars of the birth are the library's (C05)"]
+    r.build()
+    r.mc("MC_Fortune", "MC_Fortune")
+    ch = r.drive("c12births", args={"births": 40000 if thorough else 600}, maxlines=400)
+    r.validate("Trace_BaZi", ch)
+    r.sample_from(ch[:1])
+    r.cov["samples"] = [s[:500] for s in r.cov["samples"]]
+    n = 0
+    for c in ch:
+        for line in open(c, encoding="utf-8"):
+            n += 4
+    r.cov["charts"] = n
+    r.cov["distinct_nontrivial"] = n
+    def chart(e, k=0):
+        if e["p"] != 0: return None
+        c = e["ch"][k]
+        return c if c["p"] == 0 else None
+    def direction(e):
+        c = chart(e, 1)
+        if not c: return False
+        c["fwd"] = 1 - c["fwd"]
+        return True
+    def start(e):
+        c = chart(e, 3)
+        if not c: return False
+        c["st"][2] = (c["st"][2] + 1) % 30
+        return True
+    def solar(e):
+        c = chart(e, 0)
+        if not c: return False
+        c["ss"][5] = (c["ss"][5] + 1) % 60
+        return True
+    def dayun(e):
+        c = chart(e, 2)
+        if not c: return False
+        c["dy"][3]["v"][5] = (c["dy"][3]["v"][5] + 1) % 60
+        return True
+    def liunian(e):
+        c = chart(e, 0)
+        if not c: return False
+        c["dy"][2]["ln"][4][3] = (c["dy"][2]["ln"][4][3] + 1) % 60
+        return True
+    def xiaoyun(e):
+        c = chart(e, 1)
+        if not c: return False
+        c["dy"][1]["xy"][0][3] = (c["dy"][1]["xy"][0][3] + 2) % 60
+        return True
+    def liuyue(e):
+        c = chart(e, 0)
+        if not c or "ly" not in c["dy"][1]: return False
+        c["dy"][1]["ly"][5][2] = (c["dy"][1]["ly"][5][2] + 10) % 60
+        return True
+    def span(e):
+        c = chart(e, 3)
+        if not c: return False
+        c["dy"][4]["v"][2] += 1
+        return True
+    r.negctl("Trace_BaZi", ch[0], {"C12Birth": [(direction, "C12.direction"), (start, "C12.start."), (solar, "C12.start.solar"), (dayun, "C12.daYun.pillar"),
+                                                 (liunian, "C12.liuNian"), (xiaoyun, "C12.xiaoYun"), (liuyue, "C12.liuYue"), (span, "C12.daYun.")]}, per_kind=1)
